@@ -244,3 +244,12 @@ template void use_named_props<int>(OVM::TopologyKernel &, const OVM::TopologyKer
 
 // all members of the generic circulator wrapper, incl. the arithmetic operators nothing in the library calls (rule C05.arith)
 template class OpenVolumeMesh::GenericCirculator<OpenVolumeMesh::detail::VertexEdgeIterImpl>;
+
+// a geometry kernel with integer positions: the result types of the metric queries must not be the scalar type (rule C19.geom, F69)
+namespace verif_inst {
+using IntGeom = OpenVolumeMesh::GeometryKernel<OpenVolumeMesh::Geometry::Vec3i, OpenVolumeMesh::TopologyKernel>;
+inline auto int_edge_length(const IntGeom &m, OpenVolumeMesh::EdgeHandle e, OpenVolumeMesh::HalfEdgeHandle h) { return m.length(e) + m.length(h); }
+inline auto int_edge_barycenter(const IntGeom &m, OpenVolumeMesh::EdgeHandle e) { return m.barycenter(e); }
+auto (*int_edge_length_ptr)(const IntGeom &, OpenVolumeMesh::EdgeHandle, OpenVolumeMesh::HalfEdgeHandle) = &int_edge_length;
+auto (*int_edge_barycenter_ptr)(const IntGeom &, OpenVolumeMesh::EdgeHandle) = &int_edge_barycenter;
+}  // namespace verif_inst
